@@ -15,6 +15,7 @@
 package set
 
 import (
+	"encoding/json"
 	"math/rand"
 	"slices"
 	"unsafe"
@@ -206,4 +207,32 @@ func Union(sets ...*Set) *Set {
 		union.Add(s.GetAll())
 	}
 	return union
+}
+
+// TypeName identifies the set type in the JSON encoding of stored values (snapshots, AOF preamble).
+func (s *Set) TypeName() string {
+	return "set"
+}
+
+// MarshalJSON encodes the set as the list of its members.
+func (s *Set) MarshalJSON() ([]byte, error) {
+	members := make([]internal.BytesString, 0, s.Cardinality())
+	for _, member := range s.GetAll() {
+		members = append(members, internal.BytesString(member))
+	}
+	return json.Marshal(members)
+}
+
+func init() {
+	internal.RegisterJSONCompositeType("set", func(data []byte) (interface{}, error) {
+		var encoded []internal.BytesString
+		if err := json.Unmarshal(data, &encoded); err != nil {
+			return nil, err
+		}
+		members := make([]string, len(encoded))
+		for i, member := range encoded {
+			members[i] = string(member)
+		}
+		return NewSet(members), nil
+	})
 }
